@@ -132,10 +132,42 @@ pub mod c17 {
             }
         };
     }
+    /// extreme concrete contents at a length no symbolic harness reaches quickly: all-0xFF and 0xFF in
+    /// alternating positions (the inputs on which a chunked/lane-wise accumulation first loses a carry);
+    /// the accumulator state stays symbolic.
+    macro_rules! extreme_slice_harness {
+        ($name:ident, $n:expr, $unw:expr, $pat:expr) => {
+            #[kani::proof]
+            #[kani::unwind($unw)]
+            pub fn $name() {
+                let s: u8 = kani::any();
+                let mut data = [0u8; $n];
+                let mut i = 0;
+                let mut wide: u32 = 0;
+                while i < $n {
+                    let f: fn(usize) -> u8 = $pat;
+                    data[i] = f(i);
+                    wide += data[i] as u32;
+                    i += 1;
+                }
+                let mut c = state(s);
+                c.append(&data);
+                let raw1 = c.raw_value();
+                c.delete(&data);
+                verdicts! {
+                    "C17: append(long extreme slice) == sum of its bytes mod 256": raw1 as u32 == (s as u32 + wide) % 256,
+                    "C17: delete undoes append on a long extreme slice": c.raw_value() == s,
+                }
+                kani::cover!(true, "REACHED");
+            }
+        };
+    }
+    extreme_slice_harness!(t_slice_ff_1100, 1100, 1110, |_i| 0xff);
+    extreme_slice_harness!(t_slice_ff_even_1100, 1100, 1110, |i| if i % 2 == 0 { 0xff } else { 0 });
+
     long_slice_harness!(q_slice_64, 64, 70);
     long_slice_harness!(q_slice_260, 260, 270);
     long_slice_harness!(t_slice_1100, 1100, 1110);
-    long_slice_harness!(t_slice_4200, 4200, 4210);
 
     #[kani::proof]
     #[kani::unwind(12)]
